@@ -179,6 +179,37 @@ def reassign_sweep(tier, shard, nshards):
     return out[shard::nshards]
 
 
+def check_lenient(case):
+    """strings the library may or may not accept (lone surrogates): if the frame is
+    accepted and encoded, it must still come back unchanged"""
+    try:
+        obj = make_method(case['cls'], case['args'])
+        data = frame.marshal(obj, case['ch'])
+    except Exception:
+        return {'labels': ['refused'], 'nontrivial': False}
+    check(case)
+    return {'labels': ['accepted'], 'nontrivial': True}
+
+
+def lenient_cases(tier):
+    from hypothesis import strategies as st
+    slots = [(m.dotted, f.name, f.type) for m in spec_table.METHODS for f in m.fields
+             if f.type in ('shortstr', 'longstr', 'table') and
+             (m.dotted, f.name) not in S._CONSTRAINED]
+
+    def build(slot, s, base, where):
+        dotted, name, t = slot
+        args = dict(base)
+        if t == 'table':
+            args[name] = {s: 1} if where else {'k': s, 'l': [s]}
+        else:
+            args[name] = s
+        return {'cls': dotted, 'args': args, 'ch': 1}
+    return st.sampled_from(slots).flatmap(
+        lambda slot: st.builds(build, st.just(slot), S.surrogate_strs(),
+                               S.method_args(slot[0], 3, False), st.booleans()))
+
+
 _EXT = {'octet': (0, 255), 'short': (0, 65535), 'long': (0, 2**32 - 1),
         'longlong': (-2**63, 2**63 - 1)}
 
@@ -227,6 +258,12 @@ COMPONENTS = [
               classes=lambda c: ['inplace' if c['inplace'] else 'setattr'],
               budget={'quick': 6400, 'thorough': 160000},
               describe='random first and second assignment on one object'),
+    Component('surrogates', check_lenient, strategy=lenient_cases,
+              classes=lambda c: ['class=' + c['cls'].split('.')[0]],
+              budget={'quick': 6400, 'thorough': 160000},
+              describe='str values with lone surrogates (incl. the surrogateescape image '
+                       'of valid UTF-8) in every unconstrained string / table slot: '
+                       'refused, or accepted and unchanged'),
     Component('frames', check, strategy=lambda tier: S.method_cases(8, True),
               nontrivial=nontrivial, classes=classes,
               budget={'quick': 24000, 'thorough': 640000},
